@@ -35,6 +35,37 @@ CONFIGS = [('f8', ()), ('i4', (2,)), ('i4', ()), ('f8', (2,))]
 BS = 2
 LOW = ('seek', 'write', 'truncate', 'flush', 'close')
 # (kind, physical rows in the file, n_batches passed to NpyStore or None for the default -1)
+# memory layouts of the batches handed to the store (all have the same LOGICAL value): C-ordered, Fortran-ordered copy, transposed
+# view, every-other-row view x[::2], every-other-item view x[..., ::2], non-native byte order (whole history), and a native store
+# that is handed non-native batches after the first one (append may refuse them with ValueError, overwrite must convert)
+LAYOUTS = ('F', 'T', 'S', 'L', 'E', 'X')
+LCONFIGS = [('i4', (2,)), ('f8', (2, 3)), ('f8', ())]
+LOPS = ('append', 'overwrite', 'overwrite_last', 'del_last', 'flush', 'reopen', 'pickle')
+
+
+def lay_out(b, layout, first):
+    """the same logical array in another memory layout"""
+    if layout == 'C':
+        return b
+    if layout == 'F':
+        return np.asfortranarray(b)
+    if layout == 'T':
+        return np.ascontiguousarray(b.T).T
+    if layout == 'S' or (layout == 'L' and b.ndim == 1):
+        big = np.zeros((2 * b.shape[0],) + b.shape[1:], dtype=b.dtype)
+        big[::2] = b
+        return big[::2]
+    if layout == 'L':
+        big = np.zeros(b.shape[:-1] + (2 * b.shape[-1],), dtype=b.dtype)
+        big[..., ::2] = b
+        return big[..., ::2]
+    if layout == 'E' or (layout == 'X' and not first):
+        return b.astype(b.dtype.newbyteorder())
+    if layout == 'X':
+        return b
+    raise ValueError(layout)
+
+
 PRELOADS = [('longer', 4 * BS, 2), ('longer', 2 * BS, 0), ('longer', 3 * BS, 1), ('ragged', 2 * BS + 1, None), ('ragged', 1, None), ('ragged', 3 * BS + 1, 1)]
 
 
@@ -79,6 +110,11 @@ class KillFile:
         return call
 
 
+def diff_dtype(a, b):
+    """dtypes differ in more than the byte order (the values are compared separately)"""
+    return np.dtype(a).newbyteorder('=') != np.dtype(b).newbyteorder('=')
+
+
 class Fail(Exception):
     def __init__(self, sig, what):
         Exception.__init__(self, what)
@@ -86,9 +122,11 @@ class Fail(Exception):
 
 
 class Runner:
-    def __init__(self, S, path, cfg, ctl=None, preload=None):
-        self.S, self.path, self.ctl = S, path, ctl
+    def __init__(self, S, path, cfg, ctl=None, preload=None, layout='C'):
+        self.S, self.path, self.ctl, self.layout = S, path, ctl, layout
         self.dtype, self.rshape = np.dtype(cfg[0]), tuple(cfg[1])
+        if layout == 'E':
+            self.dtype = self.dtype.newbyteorder()      # the store is created from, and only ever sees, non-native batches
         self.model, self.counter, self.initialised = [], 0, False
         self.preload = preload
         self.phys = 0                   # rows physically in the file (tracked for preloaded histories)
@@ -114,7 +152,12 @@ class Runner:
     def batch(self):
         self.counter += 1
         n = BS * int(np.prod(self.rshape, dtype=int))
-        return (np.arange(n) + 100 * self.counter).reshape((BS,) + self.rshape).astype(self.dtype)
+        b = (np.arange(n) + 100 * self.counter).reshape((BS,) + self.rshape).astype(np.dtype(self.dtype).newbyteorder('='))
+        return lay_out(b, self.layout, not self.initialised)
+
+    def logical(self, b):
+        """what the store must report for batch b: same values, the dtype of the store, plain C order"""
+        return np.ascontiguousarray(b).astype(self.dtype)
 
     def content(self):
         if not self.model:
@@ -139,11 +182,20 @@ class Runner:
                 except IndexError:
                     self.snapshots.append(self.content())
                     return
-                m.append(b)
+                m.append(self.logical(b))
+                self.phys = max(self.phys, BS * len(m))
+            elif b.dtype != self.dtype:
+                # a batch of another dtype (byte order): the store may refuse it (ValueError, nothing changed) - if it takes it, it must read back
+                try:
+                    st[len(m)] = b
+                except ValueError:
+                    self.snapshots.append(self.content())
+                    return
+                m.append(self.logical(b))
                 self.phys = max(self.phys, BS * len(m))
             else:
                 st[len(m)] = b
-                m.append(b)
+                m.append(self.logical(b))
                 self.phys = max(self.phys, BS * len(m))
             self.initialised = True
         elif op in ('overwrite', 'overwrite_last'):
@@ -151,7 +203,7 @@ class Runner:
             if m:
                 i = 0 if op == 'overwrite' else len(m) - 1
                 st[i] = b
-                m[i] = b
+                m[i] = self.logical(b)
             else:
                 self._expect_index_error(lambda: st.__setitem__(len(m) + 1, b), 'store[len+1] = batch')
         elif op == 'del_last':
@@ -199,11 +251,11 @@ class Runner:
         want = self.content()
         if self.preload is not None:
             # the file may hold rows beyond the exposed batches: it must START with the stored batches
-            if a.dtype != want.dtype or a.shape[1:] != want.shape[1:] or len(a) < len(want) or not np.array_equal(a[:len(want)], want):
+            if diff_dtype(a.dtype, want.dtype) or a.shape[1:] != want.shape[1:] or len(a) < len(want) or not np.array_equal(a[:len(want)], want):
                 raise Fail('file', 'numpy.load after %s gives %s rows %s, which do not start with the %s rows the store holds %s'
                            % (after, a.shape[0], a.tolist()[:6], want.shape[0], want.tolist()[:6]))
             return
-        if a.dtype != want.dtype or a.shape != want.shape or not np.array_equal(a, want):
+        if diff_dtype(a.dtype, want.dtype) or a.shape != want.shape or not np.array_equal(a, want):
             raise Fail('file', 'numpy.load after %s gives %s rows %s, the store holds %s rows %s' % (after, a.shape[0], a.tolist()[:6], want.shape[0], want.tolist()[:6]))
 
     def check_view(self):
@@ -215,7 +267,7 @@ class Runner:
                 raise Fail('view', '(%d in store) = %r with %d batches' % (i, i in st, len(m)))
         for i, b in enumerate(m):
             got = np.array(st[i])
-            if got.dtype != b.dtype or got.shape != b.shape or not np.array_equal(got, b):
+            if diff_dtype(got.dtype, b.dtype) or got.shape != b.shape or not np.array_equal(got, b):
                 raise Fail('view', 'store[%d] = %s, written %s' % (i, got.tolist(), b.tolist()))
 
     def finish(self):
@@ -229,7 +281,7 @@ def _path(tag):
     return os.path.join(_tmpdir(), 'a%s.npy' % tag)
 
 
-def run_sequence(S, cfg, seq, count_last=False, preload=None):
+def run_sequence(S, cfg, seq, count_last=False, preload=None, layout='C'):
     """functional run -> (failure dict or None, info).  info = dict(calls=#file calls of the last op, names, hist=[contents], flushed)"""
     path = _path('f')
     if os.path.exists(path):
@@ -238,10 +290,12 @@ def run_sequence(S, cfg, seq, count_last=False, preload=None):
     inp = dict(dtype=cfg[0], row_shape=list(cfg[1]), batch_size=BS, seq=list(seq))
     if preload is not None:
         inp['preload'] = list(preload)
+    if layout != 'C':
+        inp['layout'] = layout
     r = None
     try:
         with native.time_limit(20):
-            r = Runner(S, path, cfg, ctl, preload)
+            r = Runner(S, path, cfg, ctl, preload, layout)
             for j, op in enumerate(seq):
                 if ctl is not None and j == len(seq) - 1:
                     ctl['active'] = True
@@ -299,7 +353,7 @@ def kill_run(S, cfg, seq, k, when, hist):
         return dict(signature='c06:crash-load', input=inp,
                     what='%s `%s`: numpy.load fails: %s: %s' % (_kp(k, when), seq[-1], type(e).__name__, str(e)[:90]))
     for h in hist:
-        if a.dtype == h.dtype and a.shape == h.shape and np.array_equal(a, h):
+        if not diff_dtype(a.dtype, h.dtype) and a.shape == h.shape and np.array_equal(a, h):
             return None
     return dict(signature='c06:crash-content', input=inp,
                 what='%s `%s`: file holds %d rows %s, which was never the logical content since the last flush (%s)'
@@ -345,8 +399,41 @@ def run(tier='quick', seed=0):
                % (LP, PRELOADS, pcfgs),
                rule='non-trivial = sequence that appends (writes batch index len(store)) while the file holds rows beyond the exposed batches',
                cases=0, nontrivial=0, failures=[])
-    seen_f, seen_k, seen_p = set(), set(), set()
+    LL = 3 if tier == 'quick' else 4
+    lcfgs = LCONFIGS
+    lay = dict(name='npystore-batch-layouts', bound='sequences <= %d (quick: <= 4 for the first configuration) starting with append over %s, every batch handed over in memory layout %s '
+               '(F = Fortran-ordered copy, T = transposed view, S = x[::2] rows, L = x[..., ::2] items, E = non-native byte order throughout, '
+               'X = non-native batches to a native store); batch_size %d; %s' % (LL, '/'.join(LOPS), '/'.join(LAYOUTS), BS, lcfgs),
+               rule='non-trivial = the layout changes the byte image of the batch (row shape with >= 2 items, or a strided / byte-swapped batch)',
+               cases=0, nontrivial=0, failures=[])
+    fsg = dict(name='npyarray-file-names', bound='scenarios: pickle / deepcopy round trip of a store in a sub-folder (relative and absolute path) with and '
+               'without another array file of the same base name in the working directory / elsewhere, store moved with its folder, file gone, '
+               'ArrayPool node stores (pickle of the node store; save/close/open) next to a namesake file, NpyArray(name) with and without the .npy '
+               'suffix x reopen / truncate=True / array over an existing file, delete (open, pending header, closed; twice)',
+               rule='non-trivial = another file with the same base name (or the suffix-less name) exists', cases=0, nontrivial=0, failures=[])
+    seen_f, seen_k, seen_p, seen_l = set(), set(), set(), set()
     try:
+        for inp, fn in fs_scenarios(S, tier):
+            f = run_fs(S, inp, fn)
+            fsg['cases'] += 1
+            if inp.get('other') or inp['scenario'] in ('arraypool', 'file-name', 'delete') or inp.get('namesake_elsewhere'):
+                fsg['nontrivial'] += 1
+            if f and f['signature'] not in seen_f:
+                seen_f.add(f['signature'])
+                fsg['failures'].append(f)
+        seen_f = set()
+        for cfg in lcfgs:
+            for layout in LAYOUTS:
+                for seq in sequences(LL if (tier == 'quick' and cfg == LCONFIGS[0]) else LL - 1, LOPS):
+                    seq = ('append',) + seq
+                    f, _ = run_sequence(S, cfg, seq, layout=layout)
+                    lay['cases'] += 1
+                    if cfg[1] or layout in ('S', 'L', 'E', 'X'):
+                        lay['nontrivial'] += 1
+                    if f and (f['signature'], layout) not in seen_l:
+                        seen_l.add((f['signature'], layout))
+                        f['signature'] = f['signature'].replace('c06:', 'c06:layout-%s-' % layout)
+                        lay['failures'].append(f)
         for cfg in pcfgs:
             for pl in PRELOADS:
                 for seq in sequences(LP):
@@ -381,7 +468,291 @@ def run(tier='quick', seed=0):
                             kil['failures'].append(kf)
     finally:
         shutil.rmtree(_tmpdir(), ignore_errors=True)
-    return [fun, kil, pre]
+    return [fun, kil, pre, lay, fsg]
+
+
+# ------------------------------------------------------------------------------------------------ file names: reopen, unpickle, delete
+def _b(start, rshape=(2,), dtype='f8'):
+    n = BS * int(np.prod(rshape, dtype=int))
+    return (np.arange(n) + start).reshape((BS,) + tuple(rshape)).astype(dtype)
+
+
+def _same(store, model):
+    if len(store) != len(model):
+        return 'reports %d batches, the in-memory sequence has %d' % (len(store), len(model))
+    for i, b in enumerate(model):
+        got = np.array(store[i])
+        if diff_dtype(got.dtype, b.dtype) or got.shape != b.shape or not np.array_equal(got, b):
+            return 'batch %d is %s, written %s' % (i, got.tolist(), b.tolist())
+    return None
+
+
+def _rows(path):
+    try:
+        return np.load(path).tolist()
+    except Exception as e:
+        return '%s: %s' % (type(e).__name__, str(e)[:60])
+
+
+def fs_scenarios(S, tier='quick', extra=False):
+    """-> list of (input dict, callable() -> None | str).  Every scenario runs in a fresh directory that is the working directory."""
+    out = []
+
+    def namesake(store_rel, other_rel, absolute, via):
+        def run():
+            sp = os.path.abspath(store_rel) if absolute else store_rel
+            for q in (sp, other_rel):
+                if q and os.path.dirname(q):
+                    os.makedirs(os.path.dirname(q), exist_ok=True)
+            other0 = None
+            if other_rel:
+                S.NpyArray(other_rel, np.concatenate([_b(-500), _b(-400)])).close()
+                other0 = open(other_rel + '.npy', 'rb').read()
+            st = S.NpyStore(sp, BS)
+            model = []
+            for k in range(3):
+                model.append(_b(100 * (k + 1)))
+                st[k] = model[-1]
+            if via == 'pickle':
+                cp = pickle.loads(pickle.dumps(st))
+            else:
+                import copy
+                cp = copy.deepcopy(st)
+            try:
+                w = _same(cp, model)
+                if w:
+                    return 'unpickled store of %s%s: %s' % (sp, ' (another %s.npy exists)' % other_rel if other_rel else '', w)
+                st.close()
+                # keep working through the unpickled store
+                model[0] = _b(900)
+                cp[0] = model[0]
+                del cp[2]
+                model.pop()
+                model.append(_b(1000))
+                cp[2] = model[-1]
+                w = _same(cp, model)
+                if w:
+                    return 'after overwrite/delete/append through the unpickled store of %s: %s' % (sp, w)
+                cp.flush()
+                if _rows(sp + '.npy') != np.concatenate(model).tolist():
+                    return 'file %s.npy holds %s after flush, the store holds %s' % (sp, _rows(sp + '.npy'), np.concatenate(model).tolist())
+                if other_rel and open(other_rel + '.npy', 'rb').read() != other0:
+                    return 'the unrelated file %s.npy was modified through the unpickled store of %s' % (other_rel, sp)
+            finally:
+                cp.close()
+                st.close()
+            return None
+        return dict(scenario='namesake', store=store_rel, other=other_rel, absolute=absolute, via=via), run
+
+    layouts = [('sub/d', 'd'), ('a/b/S1', 'S1'), ('sub/d', None), ('d', 'sub/d'), ('x/d', 'y/d'), ('sub/d', 'sub2/sub/d')]
+    for store_rel, other_rel in layouts:
+        for absolute in (False, True):
+            for via in (('pickle',) if tier == 'quick' and absolute else ('pickle', 'deepcopy')):
+                out.append(namesake(store_rel, other_rel, absolute, via))
+
+    def moved(with_namesake_elsewhere):
+        def run():
+            os.makedirs('old')
+            st = S.NpyStore('old/m', BS)
+            model = [_b(100), _b(200)]
+            st[0], st[1] = model
+            data = pickle.dumps(st)
+            st.close()
+            os.rename('old', 'new')
+            if with_namesake_elsewhere:
+                os.makedirs('old2')
+                S.NpyArray('old2/m', _b(-1)).close()
+            cwd = os.getcwd()
+            os.chdir('new')            # as OutputPool.open does: unpickle inside the (moved) folder
+            try:
+                cp = pickle.loads(data)
+                try:
+                    w = _same(cp, model)
+                finally:
+                    cp.close()
+            finally:
+                os.chdir(cwd)
+            return 'store unpickled inside its moved folder: %s' % w if w else None
+        return dict(scenario='moved-folder', namesake_elsewhere=with_namesake_elsewhere), run
+    out += [moved(False), moved(True)]
+
+    def missing():
+        os.makedirs('gone')
+        st = S.NpyStore('gone/z', BS)
+        st[0] = _b(5)
+        data = pickle.dumps(st)
+        st.close()
+        shutil.rmtree('gone')
+        S.NpyArray('zz', _b(7)).close()
+        before = sorted(os.listdir('.'))
+        try:
+            cp = pickle.loads(data)
+        except FileNotFoundError:
+            return None if sorted(os.listdir('.')) == before else 'a failed unpickle changed the directory: %s -> %s' % (before, sorted(os.listdir('.')))
+        n = len(cp)
+        cp.close()
+        return 'unpickling a store whose file is gone did not raise FileNotFoundError (store reports %d batches; files now %s)' % (n, sorted(os.listdir('.')))
+    out.append((dict(scenario='missing-file'), missing))
+
+    def pool(via_open, repickle=False):
+        def run():
+            class Ctx:
+                batch_size = BS
+                seed = 123
+            S.NpyArray('theta', np.concatenate([_b(-500), _b(-400)])).close()
+            other0 = open('theta.npy', 'rb').read()
+            p = S.ArrayPool(['theta', 'mu'], name='run', prefix='pools')
+            p.set_context(Ctx)
+            model = []
+            for k in range(3):
+                model.append(_b(100 * (k + 1)))
+                p.add_batch({'theta': model[-1], 'mu': _b(7 * k)}, k)
+            if via_open:
+                p.save()
+                p.close()
+                q = S.ArrayPool.open('run', prefix='pools')
+                st = q.get_store('theta')
+                if repickle:
+                    st = pickle.loads(pickle.dumps(st))
+            else:
+                q = None
+                st = pickle.loads(pickle.dumps(p.get_store('theta')))
+            try:
+                w = _same(st, model)
+                if w:
+                    return 'store of node theta of pool pools/run %s, with an unrelated ./theta.npy: %s' % ('after save/close/open' if via_open else 'unpickled', w)
+                model.append(_b(2000))
+                st[3] = model[-1]
+                st.flush()
+                if _rows(os.path.join('pools', 'run', 'theta.npy')) != np.concatenate(model).tolist():
+                    return 'pool file pools/run/theta.npy holds %s, the store holds %s' % (_rows(os.path.join('pools', 'run', 'theta.npy')), np.concatenate(model).tolist())
+                if open('theta.npy', 'rb').read() != other0:
+                    return 'the unrelated ./theta.npy was modified through the pool store'
+            finally:
+                st.close()
+                (q or p).close()
+            return None
+        return dict(scenario='arraypool', via=('save/close/open, then pickle of the node store' if repickle else 'save/close/open') if via_open else 'pickle of the node store'), run
+    out += [pool(False), pool(True)]
+    if extra:
+        # FAILS on the pinned tree (reported, not part of the bounded run): ArrayPool.open unpickles the node stores inside the pool folder, so
+        # with a relative prefix they are bound to the bare base name; pickling such a store again from the restored working directory binds
+        # the copy to a namesake file there (or raises FileNotFoundError).  `./check C06 --replay` with this input reproduces it.
+        out.append(pool(True, True))
+
+    def names(first, second, mode):
+        def run():
+            a0 = np.concatenate([_b(10), _b(20)])
+            open('keep', 'wb').write(b'not an array')          # a file with the suffix-less name must never be touched
+            open('keepnpy', 'wb').write(b'not an array')
+            x = S.NpyArray(first, a0)
+            x.close()
+            if not os.path.exists('keep.npy') or sorted(os.listdir('.')) != ['keep', 'keep.npy', 'keepnpy']:
+                return 'NpyArray(%r, array) left the files %s' % (first, sorted(os.listdir('.')))
+            if open('keep', 'rb').read() != b'not an array':
+                return 'NpyArray(%r, array) wrote to the file `keep`' % first
+            if mode == 'reopen':
+                y = S.NpyArray(second)
+                try:
+                    if not y.initialized or len(y) != len(a0) or not np.array_equal(np.array(y[0:len(y)]), a0):
+                        return 'NpyArray(%r) over the file written as %r reports %s rows, the file holds %s' % (second, first, len(y), len(a0))
+                    y.append(_b(30))
+                    y.flush()
+                    if _rows('keep.npy') != np.concatenate([a0, _b(30)]).tolist():
+                        return 'after reopen + append + flush the file holds %s' % (_rows('keep.npy'),)
+                finally:
+                    y.close()
+            elif mode == 'truncate':
+                y = S.NpyArray(second, truncate=True)
+                try:
+                    if len(y) != 0 or y.initialized or os.path.getsize('keep.npy') != 0:
+                        return 'NpyArray(%r, truncate=True) over an existing file: len %d, file size %d' % (second, len(y), os.path.getsize('keep.npy'))
+                    y.append(_b(40))
+                    y.flush()
+                    if _rows('keep.npy') != _b(40).tolist():
+                        return 'after truncate=True + append + flush the file holds %s' % (_rows('keep.npy'),)
+                finally:
+                    y.close()
+            else:
+                y = S.NpyArray(second, _b(50))
+                try:
+                    if len(y) != BS or not np.array_equal(np.array(y[0:BS]), _b(50)) or _rows('keep.npy') != _b(50).tolist():
+                        return 'NpyArray(%r, array) over an existing file reports %d rows; file holds %s' % (second, len(y), _rows('keep.npy'))
+                finally:
+                    y.close()
+            if open('keep', 'rb').read() != b'not an array' or open('keepnpy', 'rb').read() != b'not an array':
+                return 'a file other than keep.npy was written'
+            return None
+        return dict(scenario='file-name', first=first, second=second, mode=mode), run
+    for first, second in (('keep', 'keep'), ('keep', 'keep.npy'), ('keep.npy', 'keep'), ('keep.npy', 'keep.npy')):
+        for mode in ('reopen', 'truncate', 'array'):
+            out.append(names(first, second, mode))
+
+    def delete(how):
+        def run():
+            os.makedirs('d')
+            S.NpyArray('x', _b(1)).close()
+            S.NpyArray('d/other', _b(2)).close()
+            a = S.NpyArray('d/x', _b(3))
+            if how == 'pending':
+                a.append(_b(4))
+            elif how == 'closed':
+                a.close()
+            a.delete()
+            left = sorted(os.listdir('.')) + sorted(os.listdir('d'))
+            if left != ['d', 'x.npy', 'other.npy']:
+                return 'after delete (%s) of d/x.npy the files are %s' % (how, left)
+            if not a.deleted or not a.closed or a.initialized:
+                return 'after delete: deleted=%r closed=%r initialized=%r' % (a.deleted, a.closed, a.initialized)
+            a.delete()
+            if sorted(os.listdir('.')) + sorted(os.listdir('d')) != left or _rows('x.npy') != _b(1).tolist():
+                return 'a second delete changed the directory'
+            return None
+        return dict(scenario='delete', how=how), run
+    out += [delete(h) for h in ('open', 'pending', 'closed')]
+    return out
+
+
+def run_fs(S, inp, fn):
+    """one scenario in a fresh working directory -> failure dict or None"""
+    d = os.path.join(_tmpdir(), 'fs')
+    shutil.rmtree(d, ignore_errors=True)
+    os.makedirs(d)
+    cwd = os.getcwd()
+    import sys
+    hook = sys.unraisablehook
+    sys.unraisablehook = lambda *a: None        # a half-unpickled store's __del__ complains on stderr
+    try:
+        os.chdir(d)
+        with native.time_limit(20):
+            w = fn()
+    except native.NativeTimeout as e:
+        return dict(signature='c06:fs-timeout', what=str(e), input=inp)
+    except Exception as e:
+        return dict(signature='c06:fs-%s-exception' % inp['scenario'], what='%s: %s' % (type(e).__name__, str(e)[:160]), input=inp)
+    finally:
+        os.chdir(cwd)
+        import gc
+        gc.collect()
+        sys.unraisablehook = hook
+        shutil.rmtree(d, ignore_errors=True)
+    return dict(signature='c06:fs-%s' % inp['scenario'], what=w, input=inp) if w else None
+
+
+def search_fs(cname):
+    S = store_module()
+    pref = {'__setstate__': ('namesake', 'arraypool', 'moved-folder', 'missing-file'), '__init__': ('file-name', 'namesake'), 'delete': ('delete',)}
+    meth = cname.split('[')[0].split('.')[-1]
+    order = pref.get(meth, ())
+    sc = sorted(fs_scenarios(S, 'thorough'), key=lambda x: order.index(x[0]['scenario']) if x[0]['scenario'] in order else 9)
+    try:
+        for inp, fn in sc:
+            f = run_fs(S, inp, fn)
+            if f:
+                return dict(found=True, input=f['input'], observed=f['what'])
+    finally:
+        shutil.rmtree(_tmpdir(), ignore_errors=True)
+    return dict(found=False, searched='%d file-name scenarios (namesake files, moved folder, missing file, ArrayPool node stores, names with/without .npy, delete)' % len(sc), cases=len(sc))
 
 
 def search(cname, crash):
@@ -407,7 +778,21 @@ def search(cname, crash):
                     if f:
                         return dict(found=True, input=f['input'], observed=f['what'])
         return None
+    def layouts():
+        nonlocal n
+        for layout in LAYOUTS:
+            for cfg in LCONFIGS[:2]:
+                for seq in sorted(sequences(2, LOPS), key=lambda q: (last.index(q[-1]) if q[-1] in last else 9, len(q))):
+                    f, _ = run_sequence(S, cfg, ('append',) + seq, layout=layout)
+                    n += 1
+                    if f:
+                        return dict(found=True, input=f['input'], observed=f['what'])
+        return None
     try:
+        if not crash:
+            r = layouts()
+            if r:
+                return r
         if store_level:
             r = preloaded()
             if r:
@@ -433,17 +818,28 @@ def search(cname, crash):
                 return r
     finally:
         shutil.rmtree(_tmpdir(), ignore_errors=True)
-    return dict(found=False, searched='sequences <= %d%s; preloaded files <= 3' % (4, ' x kill at every file call of the last op' if crash else ''), cases=n)
+    return dict(found=False, searched='sequences <= %d%s; preloaded files <= 3; batch layouts %s <= 3' % (4, ' x kill at every file call of the last op' if crash else '', '/'.join(LAYOUTS)), cases=n)
 
 
 def replay_input(inp):
     """True iff the property HOLDS on this input"""
     S = store_module()
+    if inp.get('scenario'):
+        try:
+            for i2, fn in fs_scenarios(S, 'thorough', extra=True):
+                if i2 == inp:
+                    f = run_fs(S, i2, fn)
+                    if f:
+                        print('observed: %s' % f['what'])
+                    return f is None
+            raise ValueError('unknown scenario %r' % (inp,))
+        finally:
+            shutil.rmtree(_tmpdir(), ignore_errors=True)
     cfg = (inp['dtype'], tuple(inp['row_shape']))
     seq = tuple(inp['seq'])
     pl = tuple(inp['preload']) if inp.get('preload') else None
     try:
-        f, info = run_sequence(S, cfg, seq, count_last=bool(inp.get('kill')), preload=pl)
+        f, info = run_sequence(S, cfg, seq, count_last=bool(inp.get('kill')), preload=pl, layout=inp.get('layout', 'C'))
         if f:
             print('observed: %s' % f['what'])
             return False
@@ -537,4 +933,38 @@ def sanity():
     out.append(('np.prod((r,)+tail) = r*prod(tail); tobytes("C") has rows*prod(tail)*itemsize bytes, rows in order',
                 int(np.prod((5, 3, 2))) == 5 * int(np.prod((3, 2))) and len(a.tobytes('C')) == 4 * 2 * 4 and a.tobytes('C')[8:16] == a[1].tobytes('C')))
     out.append(('bytes * n has n bytes', len(b'\x20' * 7) == 7))
+    # memory layout: tobytes('C') is the logical row-major image whatever the layout; 'F' the column-major one; 'A' = 'F' exactly for
+    # Fortran-contiguous, not C-contiguous arrays; the two images coincide when the array is empty or a row has one item
+    ok_c = ok_a = ok_one = ok_mm = True
+    for shape in ((2, 2), (3, 2), (2, 2, 3), (1, 2, 3), (4,), (3, 1), (3, 1, 1), (0, 2)):
+        x = (np.arange(int(np.prod(shape))) + 5).reshape(shape).astype('i4')
+        ref = x.tobytes('C')
+        for lay in ('F', 'T', 'S', 'L'):
+            y = lay_out(x, lay, True)
+            ok_c &= np.array_equal(y, x) and y.tobytes('C') == ref and y.tobytes() == ref
+            fnc = y.flags.f_contiguous and not y.flags.c_contiguous
+            ok_a &= y.tobytes('A') == (y.tobytes('F') if fnc else ref)
+            ok_a &= (lay in ('S', 'L') or x.size == 0 or sum(1 for d in shape if d > 1) <= 1) == (not fnc)
+            if x.size == 0 or int(np.prod(shape[1:])) <= 1:
+                ok_one &= y.tobytes('F') == ref
+        if len(shape) == 2 and shape[0] >= 2 and shape[1] >= 2:
+            ok_one &= np.asfortranarray(x).tobytes('F') != ref
+    out.append(("ndarray.tobytes('C') / tobytes() = logical row-major bytes for Fortran-ordered, transposed and strided arrays", bool(ok_c)))
+    out.append(("ndarray.tobytes('A') = tobytes('F') iff Fortran-contiguous and not C-contiguous, else tobytes('C')", bool(ok_a)))
+    out.append(('column-major image = row-major image when the array is empty or a row has one item; differs for a 2x2 array', bool(ok_one)))
+    d = _tmpdir()
+    try:
+        p = os.path.join(d, 'm.npy')
+        with open(p, 'w+b') as f:
+            f.write(b'\0' * 64)
+            f.flush()
+            mm = np.memmap(f, dtype='<i4', shape=(4, 2, 2), offset=0)
+            x = (np.arange(8) + 1).reshape(2, 2, 2).astype('<i4')
+            for j, lay in enumerate(('F', 'T', 'S', 'L', 'E')):
+                mm[1:3] = lay_out(x + j, lay, False)
+                ok_mm &= open(p, 'rb').read()[16:48] == (x + j).tobytes('C')
+            del mm
+        out.append(('memmap[a:b] = value stores the LOGICAL rows of value (Fortran-ordered, transposed, strided, byte-swapped value)', bool(ok_mm)))
+    finally:
+        shutil.rmtree(d, ignore_errors=True)
     return out
